@@ -668,11 +668,21 @@ def to_matched_score(
     snote_ids = []
     for i in sort_order:
         sn, n = note_pairs[int(i)]
-        sn_on, sn_off = [sn["onset_beat"], sn["onset_beat"] + sn["duration_beat"]]
+        # sn and n are one-row note arrays: take scalars (numpy >= 2 no longer
+        # converts one-element arrays implicitly)
+        sn_on = sn["onset_beat"].item()
+        sn_off = sn_on + sn["duration_beat"].item()
         sn_dur = sn_off - sn_on
         # hack for notes with negative durations
-        n_dur = max(n["duration_sec"], 60 / 200 * 0.25)
-        pair_info = (sn_on, sn_dur, sn["pitch"], n["onset_sec"], n_dur, n["velocity"])
+        n_dur = max(n["duration_sec"].item(), 60 / 200 * 0.25)
+        pair_info = (
+            sn_on,
+            sn_dur,
+            sn["pitch"].item(),
+            n["onset_sec"].item(),
+            n_dur,
+            n["velocity"].item(),
+        )
         if include_score_markings:
             pair_info += (sn["voice"].item(),)
             pair_info += tuple(
@@ -827,8 +837,8 @@ def get_matched_notes(spart_note_array, ppart_note_array, alignment):
             s_idx = np.where(spart_note_array["id"] == al["score_id"])[0]
 
             if len(s_idx) > 0 and len(p_idx) > 0:
-                s_idx = int(s_idx)
-                p_idx = int(p_idx)
+                s_idx = s_idx.item()
+                p_idx = p_idx.item()
                 matched_idxs.append((s_idx, p_idx))
 
     if len(matched_idxs) == 0:
